@@ -1,5 +1,6 @@
 import STProofs.Structure
 import STProofs.StructureProp
+import STProofs.NDAdjoint
 /-!
 # C13 — coordinates are solved independently (every order, N, D)
 
@@ -10,6 +11,6 @@ import STProofs.StructureProp
   the output of the 1-D propagation of column `j`), `propCol_eq_1D` (which reads only coordinate `j` of waypoints, boundary
   states and upstream gradient), `propagateND_times` (duration gradient = upstream + sum over coordinates).
 
-Together with the 1-D adjoint theorems of C05 this is the statement that the D-dimensional `propagateGrad` is the exact
-adjoint coordinate by coordinate.
+Together with the 1-D adjoint theorems of C05 this gives `NDAdj.propagateND_adjoint`: the D-dimensional `propagateGrad` is
+the exact adjoint of the D-dimensional construction map (sum over coordinates of the 1-D identities).
 -/
